@@ -27,9 +27,12 @@ func runEtxQ(seed uint64, n int, outDir string, replay string) {
 	o := h.NewOut(outDir, "etxq")
 	r := h.NewRng(seed)
 	ans := func(s string) { o.Ans("impl", "%s", s) }
-	loc := common.Location{0, 0}
 	for c := 0; c < n; c++ {
 		rc := r.Fork()
+		loc := common.Location{0, 0}
+		if rc.Chance(50) {
+			loc = common.Location{byte(rc.Intn(3)), byte(rc.Intn(3))} // the queue of any zone, not only 0-0
+		}
 		o.NewCase()
 		o.Op("newcase")
 		ans("ok")
@@ -121,6 +124,15 @@ func runEtxQ(seed uint64, n int, outDir string, replay string) {
 						popped[id] = true
 						if orig := pushed[id]; orig != nil && orig.Hash() != etx.Hash() {
 							o.Violate("c04-etx-altered", fmt.Sprintf("ETX %d pushed with hash %x popped with hash %x", id, orig.Hash(), etx.Hash()))
+						}
+						if to := etx.To(); to != nil {
+							// the destination the zone is handed is classified for *this* zone: internal exactly if its prefix
+							// is this zone's (what BytesToAddress with the zone's location says)
+							_, e1 := to.InternalAddress()
+							_, e2 := common.BytesToAddress(to.Bytes(), loc).InternalAddress()
+							if (e1 == nil) != (e2 == nil) {
+								o.Violate("c16-popped-etx-classified-for-another-zone", fmt.Sprintf("zone %v pops an ETX to %x: the recipient object says internal=%v, the zone's own classification of these bytes internal=%v", loc, to.Bytes(), e1 == nil, e2 == nil))
+							}
 						}
 					}
 				case x < 88:
